@@ -20,7 +20,23 @@ type evT struct {
 	N int `json:"n"`
 }
 
+// sqlObs is a logger and metrics hook that only counts: installing it must not change what the store does.
+type sqlObs struct{ logs, appends, reads, saves, loads int }
+
+func (o *sqlObs) Debug(msg string, args ...any)                { o.logs++ }
+func (o *sqlObs) Info(msg string, args ...any)                 { o.logs++ }
+func (o *sqlObs) Error(msg string, args ...any)                { o.logs++ }
+func (o *sqlObs) OnAppend(d time.Duration, err error)          { o.appends++ }
+func (o *sqlObs) OnRead(d time.Duration, count int, err error) { o.reads++ }
+func (o *sqlObs) OnSaveOffset(d time.Duration, err error)      { o.saves++ }
+func (o *sqlObs) OnLoadOffset(d time.Duration, err error)      { o.loads++ }
+
 func mustNew(path string, opts ...Option) *SQLiteStore {
+	if vBool() {
+		// the optional observers and tuning knobs are on: same behaviour expected
+		o := &sqlObs{}
+		opts = append(opts, WithLogger(o), WithMetricsHook(o), WithBusyTimeout(time.Second), WithAutoMigrate(true))
+	}
 	st, err := New(vsqlFresh(path), opts...)
 	vAssert(err == nil && st != nil, "store-opens")
 	return st
